@@ -874,12 +874,9 @@ def r10(p, rep):
                 break
             ok = bad is None
             rep.add("C11.R10", f"{m.qualname}:run-after-defer", site, ok, "no path puts a factory aside and then runs it without taking the entry back" if ok else f"a path through line {getattr(bad.ast, 'lineno', '?')} stores the factory under a module that is not imported yet, reaches this `_run_factory` call and returns with the stored entry still waiting: when that module is imported later the factory runs a second time and two backends of the same name and priority are registered, so selection by tensor type then fails with 'Multiple registered backends'")
-            # (b) the factory that runs here was read from the waiting list: the entry is consumed on every path through the call
-            loops = [a for a in parents(r.ast) if isinstance(a, (ast.For, ast.comprehension)) and _DEFERRED in norm(a.iter)] if r.ast is not None else []
-            if loops:
-                others = [c for c in consumes if c is not r]
-                leak = r not in consumes and cfg.can_reach(cfg.entry, r, avoid=others) and cfg.can_reach(r, cfg.exit, avoid=others)
-                rep.add("C11.R10", f"{m.qualname}:consume-waiting-entry", site, not leak, "the waiting entry is removed before or after its factories run, on every path through the call" if not leak else "a path runs the factories waiting for a module and returns without removing the entry: the next scan for new imports would run them again")
+            # Not a clause: "an entry whose factories ran is removed".  _check_new_imports visits a module name once (it is put into
+            # seen_module_names first), so an entry left behind under a seen name never runs again; demanding the `del` would alarm
+            # on an edit that keeps the behaviour.
     if runs_total == 0:
         raise AnalysisError("anchor lost: BackendRegistryState._run_factory exists but none of the class's methods calls it")
 
